@@ -157,7 +157,6 @@ Proof. exact init_fs_target_ok. Qed.
 
 (* non-vacuity: hostile names are rejected, odd ones kept; a run with both *)
 Example C20_enclosed_examples :
-  let b := map (fun c => N.of_nat (Ascii.nat_of_ascii c)) in
   enclosed [46; 46; 47; 120] = false (* ../x *) /\ enclosed [47; 120] = false (* /x *) /\
   enclosed [97; 47; 46; 46; 47; 46; 46; 47; 120] = false (* a/../../x *) /\
   enclosed [97; 47; 46; 46; 47; 120] = true (* a/../x *) /\ enclosed [46; 47; 120] = true (* ./x *) /\
